@@ -737,14 +737,15 @@ def _collect_frames(lexicon: _AnyLexicon) -> list[lmf.SyntacticBehaviour]:
 
     # IDs are not required and frame strings must be unique in a
     # lexicon, so lookup syntactic behaviours by the frame string
-    synbhrs: dict[str, lmf.SyntacticBehaviour] = {
-        frame['subcategorizationFrame']: {
-            'id': frame['id'],
+    synbhrs: dict[str, lmf.SyntacticBehaviour] = {}
+    for frame in lexicon.get('frames', []):
+        synbhr: lmf.SyntacticBehaviour = {
             'subcategorizationFrame': frame['subcategorizationFrame'],
             'senses': frame.get('senses', []),
         }
-        for frame in lexicon.get('frames', [])
-    }
+        if frame.get('id'):  # the id is optional
+            synbhr['id'] = frame['id']
+        synbhrs[frame['subcategorizationFrame']] = synbhr
     # all relevant senses are collected into the 'senses' key
     id_senses_map = {sb['id']: sb['senses']
                      for sb in synbhrs.values() if sb.get('id')}
